@@ -133,11 +133,56 @@ def s2_candidates():
     return out
 
 
+S3_SIG = ["type A;", "pred r(A);", "pred s(A);", "pred t(A);"]
+
+
+def s3_theories():
+    """S3 (premise equalities): binders r(x); s(y); t(z) in this order, with one or two equalities between
+    variables (both orientations) inserted at every position at which both sides are already bound."""
+    eqs = [("x", "y"), ("y", "x"), ("y", "z"), ("z", "y"), ("x", "z"), ("z", "x")]
+    def earliest(e):
+        return 3 if "z" in e else 2
+    rules = []
+    for e in eqs:
+        for pos in range(earliest(e), 4):
+            rules.append([(pos, e)])
+    for e1 in eqs:
+        for e2 in eqs:
+            if e1 == e2:
+                continue
+            for p1 in range(earliest(e1), 4):
+                for p2 in range(max(p1, earliest(e2)), 4):
+                    rules.append([(p1, e1), (p2, e2)])
+    binders = ["r(x)", "s(y)", "t(z)"]
+    out = []
+    for start in range(0, len(rules), BUNDLE):
+        chunk = rules[start:start + BUNDLE]
+        k = start // BUNDLE
+        name = f"s_eq_{'abcdefghijklmnopqrstuvwxyz'[k // 26]}{'abcdefghijklmnopqrstuvwxyz'[k % 26]}"
+        lines = list(S3_SIG)
+        body, wit = [], []
+        for ri, placed in enumerate(chunk):
+            w = f"w{'abcd'[ri]}"
+            wit.append(w)
+            lines.append(f"pred {w}(A, A, A);")
+            body.append(f"rule r{'abcd'[ri]} {{")
+            for i, b in enumerate(binders):
+                body.append(f"    if {b};")
+                for pos, (a, c) in placed:
+                    if pos == i + 1:
+                        body.append(f"    if {a} = {c};")
+            body.append(f"    then {w}(x, y, z);")
+            body.append("}")
+        meta = {"no_insert": wit, "menu_rels": ["r", "s", "t"], "sweep": "S3", "max_defines": 0, "elem_cap": 2, "depth_quick": 4, "depth_thorough": 5}
+        out.append((name, "//@ " + json.dumps(meta) + "\n" + "\n".join(lines + body) + "\n"))
+    return out
+
+
 def main():
     root = os.path.dirname(os.path.dirname(os.path.abspath(__file__)))
     d = os.path.join(root, "corpus", "s")
     os.makedirs(d, exist_ok=True)
-    want = dict(bundle_theories() + s2_candidates())
+    want = dict(bundle_theories() + s2_candidates() + s3_theories())
     for f in os.listdir(d):
         if f.endswith(".eql") and f[:-4] not in want:
             os.unlink(os.path.join(d, f))
